@@ -3,8 +3,12 @@
 From Coq Require Import Bool List NArith ZArith Lia.
 From M Require HeapProof.
 From M Require QStatic.
+From M Require SystErr.
+From M Require ErrSpec.
 From M Require FifoProof.
+From M Require FmtModel.
 From M Require HeapProof.
+From M Require QStatic.
 Import ListNotations.
 
 Module T_init_inv. Import HeapProof. Local Open Scope bool_scope. Local Open Scope Z_scope.
@@ -149,4 +153,18 @@ Theorem C20_empty_queue_reusable :
 Proof. exact (@QStatic.empty_queue_reusable). Qed.
 End T_empty_queue_reusable.
 Definition C20_empty_queue_reusable := @T_empty_queue_reusable.C20_empty_queue_reusable.
+
+Module T_systerr_static. Import SystErr. Local Open Scope bool_scope. Local Open Scope Z_scope.
+Import FifoProof HeapProof QStatic FmtModel ErrSpec. Local Open Scope Z_scope.
+Theorem C20_systerr_static :
+  forall s st es,
+  QH s st es ->
+  let '(s', out) := Glue.hq_systerr s in
+  match es with
+  | [] => out = result_error 0 (Glue.descz 0) None Generated.gen_desc_max /\ QH s' st []
+  | (c, tx) :: r => out = result_error c (Glue.descz c) tx Generated.gen_desc_max /\ exists st', QH s' st' r
+  end.
+Proof. exact (@SystErr.systerr_static). Qed.
+End T_systerr_static.
+Definition C20_systerr_static := @T_systerr_static.C20_systerr_static.
 
